@@ -2,7 +2,9 @@
    This file holds nothing but the property theorems (closed by `exact`) and Print Assumptions.
    Model: Sched/Model.v, Agent/Run.v.  Proofs: Sched/Proofs.v, Sched/ProofsFinal.v, Agent/RunProofs.v.
    Tie to the code: tools/props/C03.py.
-   Premise: norepeat c (no repeatPolicy step).  Since fix f9e55a3 no premise about the done channel is needed.
+   Premise: norepeat c (no repeatPolicy step: a repeating step has no last attempt until a stop request - stopped runs
+   are C04/C05 - and with continueOn.failure it is labelled failed while it keeps executing, see
+   C15_repeating_step_refuted).  Since fix f9e55a3 no premise about the done channel is needed.
    Outside the model (documented corner): a step with BOTH retryPolicy and repeatPolicy + continueOn.failure is
    re-entered by its own worker and relaunched by the loop (the model has one worker slot per node); in a stopped
    run retryCount can exceed the extra attempts by one (stop during the retry wait) - C03_attempt_bounds covers it. *)
